@@ -386,3 +386,33 @@ def outer_origins(fb, f, op, depth=4):
             sub, outer = outer_origins(fb, pf, operands[idx], depth - 1)
             out |= sub
     return out, outer
+
+
+
+def norm_closures(x):
+    """erase closure ordinals: `f::{closure#3}` -> `f::{closure}`.  Ordinals are positional, so adding an unrelated closure
+    to a function renumbers the later ones; reviewed-table entries must survive that (a site is then identified by its
+    parent function, the kind of site and - where the rule records one - a message literal)"""
+    if isinstance(x, str):
+        return re.sub(r'\{closure#\d+\}', '{closure}', x)
+    if isinstance(x, tuple):
+        return tuple(norm_closures(e) for e in x)
+    return x
+
+
+class RevTable(dict):
+    """reviewed-table lookup that is insensitive to closure ordinals in its (string / tuple-of-string) keys"""
+
+    def __init__(self, d=()):
+        super().__init__()
+        for k, v in (d.items() if isinstance(d, dict) else d):
+            super().__setitem__(norm_closures(k), v)
+
+    def get(self, k, default=None):
+        return super().get(norm_closures(k), default)
+
+    def __contains__(self, k):
+        return super().__contains__(norm_closures(k))
+
+    def __getitem__(self, k):
+        return super().__getitem__(norm_closures(k))
